@@ -33,7 +33,7 @@ for p in pkgs:
     tests[p] = {"exit": rc, "failed": fails, "ok": rc == 0 or set(fails) <= allowed}
 res["existing_tests"] = tests
 # demo with / without
-demos = glob.glob(os.path.join(seed, "*_test.go"))
+demos = glob.glob(os.path.join(seed, "*_test.go")) + glob.glob(os.path.join(seed, "*", "*_test.go"))
 democmd = open(os.path.join(seed, "demo_cmd.txt")).read().strip() if os.path.exists(os.path.join(seed, "demo_cmd.txt")) else ""
 res["demo_cmd"] = democmd
 # find the target package of the demo from its package clause + the agent's worktree layout
@@ -41,8 +41,12 @@ agent_wt = f"/tmp/wt_{sid}"
 placed = []
 for d in demos:
     base = os.path.basename(d)
-    hits = glob.glob(os.path.join(agent_wt, "*", base))
-    pkg = os.path.basename(os.path.dirname(hits[0])) if hits else pkgs[0]
+    sub = os.path.basename(os.path.dirname(d))
+    if os.path.dirname(d) != seed and os.path.isdir(os.path.join(wt, sub)):
+        pkg = sub
+    else:
+        hits = glob.glob(os.path.join(agent_wt, "*", base))
+        pkg = os.path.basename(os.path.dirname(hits[0])) if hits else pkgs[0]
     shutil.copy(d, os.path.join(wt, pkg, base)); placed.append((pkg, base))
 def run_demo():
     outs = []
